@@ -64,7 +64,16 @@ ASSUMPTIONS = [
     '(record of its fields: getattr/setattr/todict/type/repr/str are primitives of Model/PrimsShell.v, shlex.split is the '
     'model\'s shlex_split); settings.getstr/setstr called from do_set have as primitive semantics what their own ties prove; '
     'the text of str(ex) is uninterpreted; a parsed statement is a record of its class, from_clause and close; on_Select '
-    '(with-statement, keyword call of render) is outside the fragment: covered by the correspondence only',
+    '(with-statement, keyword call of render) is outside THAT fragment: tied in group shell2, next entry',
+    'translator tie of the query output (C19_source_on_select, group shell2 -> Gen/SrcShell2.v): trusted are the translator '
+    '(py2mini + src_api + the rules S1-S4 of src_shell2.py), PyMini and Model/PrimsShell2.v: `with self.output as out` binds '
+    'an uninterpreted value and __exit__ (flush / pager) is not modelled; context.execute returns an opaque cursor object '
+    'whose description / fetchall, and dcontext.build(), are uninterpreted; fetchall and numberify_results return lists of '
+    'rows (oracles_ok); FORMATS.get(name) is the function object of the live FORMATS[name] and calling it with '
+    'dcontext= and **settings.todict() is interpreting its translated body with dcontext bound by name (no Settings field '
+    'is named like a parameter of the adapters: checked by the translator); print / render_text / render_csv / '
+    'numberify_results are opaque callables; the theorem is stated in the shape of Shell.render_format, not yet through a '
+    'World instance; BQLShell.do_run / shlex.split is not tied by translation (correspondence only)',
 ]
 
 WORK = os.path.join(core.BUILD, 'c19')
@@ -289,6 +298,7 @@ def generate():
     # translator tie: coq/Gen/SrcShell.v from the source of parseline / onecmd / _parse_bool (py2mini + src_api)
     from . import gen_src
     out.update(gen_src.generate('shell'))
+    out.update(gen_src.generate('shell2'))      # bld-misc: BQLShell.on_Select and the render adapters behind FORMATS
     return out
 
 
